@@ -230,6 +230,15 @@ def s8(chk: Check, proj: Project, m, fc) -> None:
             src = d[0] if len(d) == 1 else a0
         okw = isinstance(src, ast.Attribute) and src.attr == "render" or "__dict__" in norm(src)
         whyw = f"read from `{norm(src)}`"
+    if g:
+        skip_ifs = [st for st in ast.walk(nf) if isinstance(st, ast.If) and any(g[0] is y for y in ast.walk(st.test)) and any(isinstance(r, ast.Return) for r in st.body)]
+        for st in skip_ifs:
+            alone = st.test is g[0] or (isinstance(st.test, ast.Name))
+            if isinstance(st.test, ast.BoolOp) and isinstance(st.test.op, ast.Or):
+                alone = False
+            chk.ob("S8", "node:NodeMeta.__new__:wrapping-skipped-only-for-wrapped-functions", nm.loc(st), alone,
+                   "the class is left alone only when its render function already carries the marker" if alone else
+                   f"`if {short(st.test)}: return cls` also skips classes for another reason: a render() inherited from a plain mixin (or BaseNode's own default) is never wrapped - Django calls render(context) directly, the tag's arguments are neither resolved, validated nor bound (`a=1 2`, `a=1 a=2` are accepted, valid calls fail with 'missing argument')")
     chk.ob("S8", "node:NodeMeta.__new__:wrapped-marker-on-the-function", nm.loc(g[0]) if g else nm.loc(nf), okw,
            "the marker is read from the class's current render function (an overriding render is a new, unmarked function)" if okw else
            f"the 'already wrapped' marker is {whyw}: a class attribute is inherited, so a subclass that overrides render() with its own signature is never wrapped and its arguments are not validated")
